@@ -87,4 +87,18 @@ CHECKS = {
         quick=[R("^TestCommitExhaustive$", 1, 1, 300)],
         thorough=[R("^TestCommitExhaustive$", 1, 1, 300)],
     ),
+    "C07": dict(
+        pkg="./props/c07", level="exploration",
+        rule=("rapid-generated schedules for the shared run counter: 1-5 callers with 1-4 NewRunNumber calls each (some through fresh Service "
+              "instances = restarts), counter initially absent / small / large; the simulated Consul holds every request on the counter key and "
+              "the drawn script decides which held request is served next, with which verdict (serve, drop before applying, apply then cut the "
+              "reply, 500, CAS refused) and whether a foreign writer bumps the counter first. Oracle on the call history: successful values "
+              "pairwise distinct, increasing in real-time order, each backed by an applied CAS of its own caller, counter never behind. "
+              "Non-trivial: >=1 CAS conflict or injected fault. Distinct = distinct case digests."),
+        assumptions=["the harness owns the order in which Consul serves requests; Go's HTTP transport may transparently retry a request whose connection was cut (accepted: the retry is an ordinary request)",
+                     "simulated Consul implements cas= semantics (cas=0 creates only if absent; otherwise ModifyIndex must match)"],
+        quick=[R("^TestRunNumbersFixed$", 1, 1, 120), R("^TestRunNumbers$", 700, 8, 300)],
+        thorough=[R("^TestRunNumbersFixed$", 1, 1, 120), R("^TestRunNumbers$", 8000, 14, 2400)],
+        floors={"cas-conflict": ("TestRunNumbers", 0.2)},
+    ),
 }
